@@ -12,6 +12,7 @@ import (
 	"github.com/ory/keto/internal/namespace/ast"
 	"github.com/ory/keto/internal/relationtuple"
 	"github.com/ory/keto/internal/x"
+	"github.com/ory/keto/internal/x/graph"
 	"github.com/ory/keto/ketoapi"
 )
 
@@ -97,39 +98,59 @@ func (e *Engine) checkSubjectSetRewrite(
 			continue
 		}
 
+		// The operands of an AND are evaluated independently of each other, so
+		// each one gets its own copy of the visited set.
+		childCtx, independent := ctx, rewrite.Operation == ast.OperatorAnd
+		if independent {
+			childCtx = graph.ForkVisited(ctx)
+		}
+
+		var check checkgroup.CheckFunc
 		switch c := child.(type) {
 
 		case *ast.TupleToSubjectSet:
-			checks = append(checks, checkgroup.WithEdge(checkgroup.Edge{
+			check = checkgroup.WithEdge(checkgroup.Edge{
 				Tuple: *tuple,
 				Type:  ketoapi.TreeNodeTupleToSubjectSet,
-			}, e.checkTupleToSubjectSet(tuple, c, restDepth)))
+			}, e.checkTupleToSubjectSet(tuple, c, restDepth))
 
 		case *ast.ComputedSubjectSet:
-			checks = append(checks, checkgroup.WithEdge(checkgroup.Edge{
+			check = checkgroup.WithEdge(checkgroup.Edge{
 				Tuple: *tuple,
 				Type:  ketoapi.TreeNodeComputedSubjectSet,
-			}, e.checkComputedSubjectSet(ctx, tuple, c, restDepth)))
+			}, e.checkComputedSubjectSet(childCtx, tuple, c, restDepth))
 
 		case *ast.SubjectSetRewrite:
-			checks = append(checks, checkgroup.WithEdge(checkgroup.Edge{
+			check = checkgroup.WithEdge(checkgroup.Edge{
 				Tuple: *tuple,
 				Type:  toTreeNodeType(c.Operation),
-			}, e.checkSubjectSetRewrite(ctx, tuple, c, restDepth-1)))
+			}, e.checkSubjectSetRewrite(childCtx, tuple, c, restDepth-1))
 
 		case *ast.InvertResult:
-			checks = append(checks, checkgroup.WithEdge(checkgroup.Edge{
+			check = checkgroup.WithEdge(checkgroup.Edge{
 				Tuple: *tuple,
 				Type:  ketoapi.TreeNodeNot,
-			}, e.checkInverted(ctx, tuple, c, restDepth)))
+			}, e.checkInverted(childCtx, tuple, c, restDepth))
 
 		default:
 			return checkNotImplemented
 		}
+		if independent {
+			check = withOwnVisitedSet(check)
+		}
+		checks = append(checks, check)
 	}
 
 	return func(ctx context.Context, resultCh chan<- checkgroup.Result) {
 		resultCh <- op(ctx, checks)
+	}
+}
+
+// withOwnVisitedSet runs the check with a copy of the visited set of the
+// context it is called with.
+func withOwnVisitedSet(check checkgroup.CheckFunc) checkgroup.CheckFunc {
+	return func(ctx context.Context, resultCh chan<- checkgroup.Result) {
+		check(graph.ForkVisited(ctx), resultCh)
 	}
 }
 
@@ -143,6 +164,10 @@ func (e *Engine) checkInverted(
 		e.d.Logger().Debug("reached max-depth, therefore this query will not be further expanded")
 		return checkgroup.UnknownMemberFunc
 	}
+
+	// The inverted check must not be answered "not a member" because one of its
+	// siblings has already visited a subject set.
+	ctx = graph.ForkVisited(ctx)
 
 	e.d.Logger().
 		WithField("request", tuple.String()).
@@ -182,7 +207,7 @@ func (e *Engine) checkInverted(
 
 	return func(ctx context.Context, resultCh chan<- checkgroup.Result) {
 		innerCh := make(chan checkgroup.Result, 1)
-		go check(ctx, innerCh)
+		go check(graph.ForkVisited(ctx), innerCh)
 		select {
 		case result := <-innerCh:
 			// invert result here, unless the sub-check failed
